@@ -16,7 +16,7 @@ func init() {
 		Level: "exploration",
 		Rule: "(a) a fixed family of Go types (every int/uint width, float32/64, string, bool, slices, nested slices, string maps, tagged structs, nested structs, pointers at every level, cty.Value fields, arrays, *big.Int / *big.Float) x generated Go values (zero, boundary, nil and empty forms): ToCtyValue against ImpliedType (or the corresponding list / number type for arrays and big numbers) then FromCtyValue must reproduce the Go value; " +
 			"(b) every number of the full alphabet plus every integer-width boundary and its neighbours, fractions, huge and infinite numbers x 14 Go numeric target types: decoding succeeds exactly when the number is representable and stores it; " +
-			"(c) every value of a bounded cty universe (known, null, unknown, DynamicVal) x every target type of the family: never a panic, and unknown / null-into-non-nilable / shape mismatches are errors; distinct by (Go type, value) / (number, target) / (cty value, target); non-trivial = every case",
+			"(c) every value of a bounded cty universe (known, null, unknown, DynamicVal) x every target type of the family: never a panic, and unknown / null-into-non-nilable / shape mismatches are errors; (d) one-deviation family: the cty counterpart of every family value with exactly one position (root or nested, depth <= 3) replaced by a null / unknown of its own type or a null / known value of 12 other types: refused wherever a reference walk over (value, Go type) finds an unknown, a null whose type is not the counterpart of the nilable target, a kind mismatch or an array-length mismatch; accepted decodes are mirrored back; distinct by (Go type, value) / (number, target) / (cty value, target); non-trivial = every case",
 		Assumptions: []string{
 			"strings are compared modulo the documented NFC normalisation; NaN is not exercised (documented caller obligation)",
 			"for float targets an inexact number may be stored as either neighbouring float; numbers within one float32 half-ulp above MaxFloat32 are not judged",
@@ -515,6 +515,15 @@ func runC18(c *Ctx) {
 			}
 		})
 	}
+	// (d)
+	for _, gc := range fam {
+		gc := gc
+		c.Unit(func(u *U) {
+			for _, g := range gc.vals {
+				c18Deviations(u, gc, g)
+			}
+		})
+	}
 	// (b)
 	nums := c18Numbers(c.Thorough)
 	for _, t := range numTargets() {
@@ -626,6 +635,200 @@ func runC18(c *Ctx) {
 				}
 			}
 		})
+	}
+}
+
+// ---- (d) one-deviation family: every valid cty counterpart of a family value with exactly one
+// nested position (the root included) replaced by a null / unknown of its own type, or by a null /
+// known value of another type.  c18Refuse is the reference for "must be refused": it walks value
+// and Go type together and answers true only where the statement leaves no doubt.
+func c18Refuse(v cty.Value, gt reflect.Type) (refuse bool, why string) {
+	ctyValT := reflect.TypeOf(cty.Value{})
+	if gt == ctyValT {
+		return false, ""
+	}
+	ptrs := 0
+	for gt.Kind() == reflect.Ptr {
+		gt = gt.Elem()
+		ptrs++
+	}
+	if gt == ctyValT || gt.Kind() == reflect.Interface {
+		return false, ""
+	}
+	if v.IsMarked() {
+		return false, ""
+	}
+	vt := v.Type()
+	if !v.IsKnown() {
+		return true, "an unknown value has no Go counterpart"
+	}
+	if vt.IsCapsuleType() || vt == cty.DynamicPseudoType || vt.IsSetType() {
+		return false, ""
+	}
+	if v.IsNull() {
+		if ptrs > 0 {
+			return false, ""
+		}
+		switch gt.Kind() {
+		case reflect.Slice:
+			if !vt.IsListType() {
+				return true, "a null " + vt.FriendlyName() + " is not the counterpart of a nil slice"
+			}
+			return false, ""
+		case reflect.Map:
+			if !vt.IsMapType() {
+				return true, "a null " + vt.FriendlyName() + " is not the counterpart of a nil map"
+			}
+			return false, ""
+		}
+		return true, "null into a target that cannot hold nil"
+	}
+	isBig := gt == reflect.TypeOf(big.Int{}) || gt == reflect.TypeOf(big.Float{})
+	switch {
+	case vt == cty.Bool:
+		if gt.Kind() != reflect.Bool {
+			return true, "bool into " + gt.Kind().String()
+		}
+	case vt == cty.String:
+		if gt.Kind() != reflect.String {
+			return true, "string into " + gt.Kind().String()
+		}
+	case vt == cty.Number:
+		switch gt.Kind() {
+		case reflect.Int, reflect.Int8, reflect.Int16, reflect.Int32, reflect.Int64, reflect.Uint, reflect.Uint8, reflect.Uint16, reflect.Uint32, reflect.Uint64, reflect.Float32, reflect.Float64:
+			return false, ""
+		}
+		if !isBig {
+			return true, "number into " + gt.Kind().String()
+		}
+	case vt.IsListType():
+		switch gt.Kind() {
+		case reflect.Array:
+			if v.LengthInt() != gt.Len() {
+				return true, "list length differs from the array length"
+			}
+			fallthrough
+		case reflect.Slice:
+			for _, e := range v.AsValueSlice() {
+				if r, w := c18Refuse(e, gt.Elem()); r {
+					return true, "element: " + w
+				}
+			}
+		default:
+			return true, "list into " + gt.Kind().String()
+		}
+	case vt.IsMapType():
+		if gt.Kind() != reflect.Map || isBig {
+			return true, "map into " + gt.Kind().String()
+		}
+		for _, e := range v.AsValueMap() {
+			if r, w := c18Refuse(e, gt.Elem()); r {
+				return true, "element: " + w
+			}
+		}
+	case vt.IsObjectType():
+		if isBig {
+			return false, "" // an empty object into a struct without tagged fields is accepted by design; big.Int is such a struct
+		}
+		if gt.Kind() != reflect.Struct {
+			return true, "object into " + gt.Kind().String()
+		}
+		for i := 0; i < gt.NumField(); i++ {
+			tag := gt.Field(i).Tag.Get("cty")
+			if tag != "" && vt.HasAttribute(tag) {
+				if r, w := c18Refuse(v.GetAttr(tag), gt.Field(i).Type); r {
+					return true, "attribute " + tag + ": " + w
+				}
+			}
+		}
+	case vt.IsTupleType():
+		if gt.Kind() != reflect.Struct && !isBig {
+			return true, "tuple into " + gt.Kind().String()
+		}
+	}
+	return false, ""
+}
+
+func c18DeviationReplacements(own cty.Type) []cty.Value {
+	out := []cty.Value{}
+	if own != cty.DynamicPseudoType {
+		out = append(out, cty.NullVal(own), cty.UnknownVal(own))
+	}
+	for _, t := range []cty.Type{cty.String, cty.Number, cty.Bool, cty.List(cty.String), cty.List(cty.Number), cty.Map(cty.Number), cty.Map(cty.String), cty.Set(cty.String),
+		cty.EmptyObject, cty.EmptyTuple, cty.Object(map[string]cty.Type{"name": cty.String, "age": cty.Number}), cty.DynamicPseudoType} {
+		if !t.Equals(own) {
+			out = append(out, cty.NullVal(t))
+		}
+	}
+	for _, k := range []cty.Value{cty.StringVal("x"), cty.NumberIntVal(1), cty.True, cty.ListValEmpty(cty.String), cty.ListVal([]cty.Value{cty.NumberIntVal(1), cty.NumberIntVal(2)}),
+		cty.MapValEmpty(cty.Number), cty.MapVal(map[string]cty.Value{"k": cty.StringVal("v")}), cty.EmptyObjectVal, cty.EmptyTupleVal} {
+		if !k.Type().Equals(own) {
+			out = append(out, k)
+		}
+	}
+	return out
+}
+
+func c18Deviations(u *U, gc goCase, g interface{}) {
+	var ty cty.Type
+	var err error
+	var v0 cty.Value
+	func() {
+		defer func() { recover() }()
+		if gc.ty != nil {
+			ty = *gc.ty
+		} else {
+			ty, err = gocty.ImpliedType(g)
+		}
+		if err == nil {
+			v0, err = gocty.ToCtyValue(g, ty)
+		}
+	}()
+	if err != nil || v0 == cty.NilVal {
+		return // judged by the round-trip clause
+	}
+	gt := reflect.TypeOf(g)
+	for _, p := range allPositions(v0, 3) {
+		own := getAt(v0, p).Type()
+		for _, r := range c18DeviationReplacements(own) {
+			v1, ok := replaceAt(v0, p, r)
+			if !ok {
+				continue // not expressible (members of a collection must agree in type)
+			}
+			u.Eval(1)
+			u.DistinctN(1)
+			target := reflect.New(gt)
+			var derr error
+			pan := func() (pan string) {
+				defer func() {
+					if r := recover(); r != nil {
+						pan = fmt.Sprint(r)
+					}
+				}()
+				derr = gocty.FromCtyValue(v1, target.Interface())
+				return ""
+			}()
+			desc := fmt.Sprintf("FromCtyValue(%s, *%s)", goStr(v1), gc.name)
+			shape := "deviation: " + shapeOf(v1) + " -> " + gc.name
+			if pan != "" {
+				u.Violation("gocty.out-panics", shape, fmt.Sprintf("%s panicked: %s", desc, firstLineOf(pan)))
+				continue
+			}
+			refuse, why := c18Refuse(v1, gt)
+			if refuse {
+				u.Class("deviation-must-refuse")
+				if derr == nil {
+					u.Violation("gocty.deviation-accepted", shape, fmt.Sprintf("%s succeeded (stored %#v) although it must be refused: %s", desc, target.Elem().Interface(), why))
+				}
+				continue
+			}
+			if derr == nil {
+				u.Class("deviation-decoded")
+				c18Mirror(u, v1, target, gt, desc, shape)
+			} else {
+				u.Class("deviation-refused-unjudged")
+			}
+		}
 	}
 }
 
